@@ -898,6 +898,16 @@ class EscapeAnalysis:
             if self._seq_param_like(fi, n.value.id) and not self._index_guarded(fi, n):
                 self.implicit_sites.append((fi.short, stmt_text(n, 60)))
                 out.add(Esc("IndexError", fi.short, n.lineno, stmt_text(n, 80)))
+        # constant index on an option-list view of a parameter (`request.opt.uri_path[-1]`): tuples that may be empty
+        if isinstance(n.value, ast.Attribute) and isinstance(n.slice, (ast.Constant, ast.UnaryOp)) and n.value.attr in ("uri_path", "uri_query", "location_path", "location_query", "etags", "if_match", "request_tag"):
+            c = chain(n.value)
+            try:
+                idx = norm.consteval(n.slice)
+            except norm.NormError:
+                idx = None
+            if c is not None and isinstance(idx, int) and self.res._is_local(fi, c.split(".")[0]) and not self._chain_index_guarded(fi, n, c):
+                self.implicit_sites.append((fi.short, stmt_text(n, 60)))
+                out.add(Esc("IndexError", fi.short, n.lineno, stmt_text(n, 80)))
         return out
 
     def _is_dict_attr(self, sc, attr):
@@ -970,6 +980,20 @@ class EscapeAnalysis:
                     clean = False
             if clean:
                 return True
+        return False
+
+    def _chain_index_guarded(self, fi, sub, c):
+        """Is the subscript dominated by a truthiness / len() guard on the same attribute chain?"""
+        cfg = cfg_of(fi)
+        nodes = cfg.locate(sub)
+        if not nodes:
+            return True
+        for e, pol, g in cfg.guards(nodes[0]):
+            if chain(e) == c and pol:
+                return True
+            for x in ast.walk(e):
+                if isinstance(x, ast.Call) and chain(x.func) == "len" and x.args and chain(x.args[0]) == c:
+                    return True
         return False
 
     def _mentions_len_or_truth(self, e, name):
